@@ -218,11 +218,11 @@ func (batch *Batch) ReadMessage() (Message, error) {
 
 	offset, timestamp, headers, err = batch.readMessage(
 		func(r *bufio.Reader, size int, nbytes int) (remain int, err error) {
-			msg.Key, remain, err = readNewBytes(r, size, nbytes)
+			msg.Key, remain, err = readMessageBytes(r, size, nbytes)
 			return
 		},
 		func(r *bufio.Reader, size int, nbytes int) (remain int, err error) {
-			msg.Value, remain, err = readNewBytes(r, size, nbytes)
+			msg.Value, remain, err = readMessageBytes(r, size, nbytes)
 			return
 		},
 	)
@@ -234,11 +234,11 @@ func (batch *Batch) ReadMessage() (Message, error) {
 		}
 		offset, timestamp, headers, err = batch.readMessage(
 			func(r *bufio.Reader, size int, nbytes int) (remain int, err error) {
-				msg.Key, remain, err = readNewBytes(r, size, nbytes)
+				msg.Key, remain, err = readMessageBytes(r, size, nbytes)
 				return
 			},
 			func(r *bufio.Reader, size int, nbytes int) (remain int, err error) {
-				msg.Value, remain, err = readNewBytes(r, size, nbytes)
+				msg.Value, remain, err = readMessageBytes(r, size, nbytes)
 				return
 			},
 		)
@@ -253,6 +253,18 @@ func (batch *Batch) ReadMessage() (Message, error) {
 	msg.Headers = headers
 
 	return msg, err
+}
+
+// readMessageBytes reads the key or the value of a message: nil for a null
+// field (negative length), an empty non-nil slice for an empty one. A null
+// value is a tombstone in a compacted topic, an empty value is not: the two
+// must not look alike to the application.
+func readMessageBytes(r *bufio.Reader, size int, nbytes int) ([]byte, int, error) {
+	b, remain, err := readNewBytes(r, size, nbytes)
+	if nbytes == 0 && err == nil {
+		b = []byte{}
+	}
+	return b, remain, err
 }
 
 // connOffset returns the offset of the connection the batch was read from.
